@@ -8,6 +8,7 @@ CONSTANTS
   AllowQueryX = FALSE
   AllowSweep = FALSE
   AllowDeclare = FALSE
+  AllowDetach = FALSE
   AllowInfer = FALSE
   CopyModes = {"copy","deepcopy","replace","from_dao"}
   UnregisteredModes = {}
